@@ -23,28 +23,28 @@ PENDING = "check under construction in this session (see DESIGN.md section 4); n
 META = {
     "C16": dict(
         category="fault_enumeration",
-        text="Seeded simulation of whole training jobs (real training.py, torch.save/load, csv) on an in-memory file system with process-crash semantics. For each sampled job every FS-mutating call index is enumerated as a crash point (thorough: all jobs; quick: a quarter of the jobs, the rest sampled), plus sampled ENOSPC faults and 2-3-fault sequences; after each fault a new controller must construct, see a row-prefix of the uninterrupted history, load last/best (or all) checkpoints with exactly their stamped tensors, and finish with the uninterrupted history. Evidence over the sampled jobs, exhaustive in crash points per job; not a proof.",
+        text="Seeded simulation of whole training jobs (real training.py, torch.save/load, csv) on an in-memory file system with process-crash semantics. For each sampled job every FS-mutating call index is enumerated as a crash point (thorough: all jobs; quick: a quarter of the jobs, the rest sampled) and every create/write/mkdir call as an ENOSPC point (Python-level clean-up runs), plus sampled 2-3-fault sequences; after each fault a new controller must construct, see a row-prefix of the uninterrupted history, load last/best (or all) checkpoints with exactly their stamped tensors, (also the optimizer's rate and hyper-parameters) and finish with the uninterrupted history; a fifth of the jobs use off-grid near-tie metrics with both criteria disabled. Evidence over the sampled jobs, exhaustive in crash points per job; not a proof.",
         design="DESIGN.md section 4 (C16), 3.3",
         note="Trusted: SimFS's crash model (completed FS calls durable, user-space buffers lost, rename atomic); reference = fault-free twin run of the same code; learning rates to print precision. Known findings C16-D2a/b (formats without {epoch}) are reported as KNOWN-FINDING, not violations.",
         technique="deterministic simulation with fault injection: in-memory FS, crash-point enumeration, twin-run + stamp oracle, ddmin replay files",
     ),
     "C15": dict(
         category="exploration",
-        text="The same simulated training job with restarts at tape-chosen epoch boundaries (thorough: also the canonical patterns never / after every epoch / after exactly epoch k), judged after every epoch against a 40-line executable reference model of the stopping and learning-rate rules written from the property statement, and at the end against the uninterrupted twin's history file.",
+        text="The same simulated training job with restarts at tape-chosen epoch boundaries (thorough: also the canonical patterns never / after every epoch / after exactly epoch k) and an optional REDO of one epoch from the previous checkpoint, judged after every epoch against a 40-line executable reference model of the stopping and learning-rate rules written from the property statement, and at the end against the uninterrupted twin's history file.",
         design="DESIGN.md section 4 (C15)",
         note="Trusted: the reference model (Criterion/ControlModel in props/training_sim.py); metrics on the k/8 grid (exact in the CSV's 5 significant digits); learning rates compared to print precision; RESTART_NOLOAD judged on decisions/history only.",
         technique="deterministic simulation: restart histories on a simulated FS against an executable reference model and an uninterrupted twin",
     ),
     "C13": dict(
         category="exploration",
-        text="W simulated ranks (torch.distributed rank/world-size queries answered by the simulator) each own a real sampler; a seeded interleaving of per-rank STEP / RESTART / JUMP / PEEK operations and global-RNG perturbations is executed, and the recorded (rank, epoch) -> index-list table is judged: same list however reached, len() = number yielded, per-epoch lists pairwise disjoint and covering (or equal counts when dropping), raise iff indivisible under the strict setting, full epoch under ignore, order independent of rank and world size.",
+        text="W simulated ranks (torch.distributed rank/world-size queries answered by the simulator) each own a real sampler; a seeded interleaving of per-rank STEP / OPEN+DRAIN (iterators held open across other operations, or abandoned) / RESTART / JUMP / PEEK operations and global-RNG perturbations is executed, and the recorded (rank, epoch) -> index-list table is judged: same list however reached, len() = number yielded, per-epoch lists pairwise disjoint and covering (or equal counts when dropping), raise iff indivisible under the strict setting, full epoch under ignore, order independent of rank and world size.",
         design="DESIGN.md section 4 (C13), 3.5",
         note="Trusted: SimDist answers is_initialized/get_rank/get_world_size (no process group, no collectives); all ranks share one interpreter and its global RNGs (which is the hazard under test); ranks of a real job are assumed to seed torch identically before building samplers.",
         technique="deterministic simulation: simulated ranks, seeded interleaving of sampler operations with rank restarts and RNG perturbation, history oracle",
     ),
     "C14": dict(
         category="exploration",
-        text="The C13 job one level up: each simulated rank owns a real SpectDataLoader / LangDataLoader / ContextWindowDataLoader over a generated data directory in the simulated file system (or a bare BucketBatchSampler with arbitrary maps); epochs, rank restarts, epoch jumps and RNG perturbations are interleaved by the seed. After every epoch: len() vs batches yielded, every batch in one bucket / in sampler order / of the bucket's size with short batches only at the tail, exactly-once delivery (or documented drops), the bucket map is a partition into length classes with documented sizes, lossless collation against an independent float64 reference pipeline (mvn, deltas, context windows, sos/eos), padding values, ids on rows; over the history: identical batches for identical (seed, epoch).",
+        text="The C13 job one level up: each simulated rank owns a real SpectDataLoader / LangDataLoader / ContextWindowDataLoader over a generated data directory in the simulated file system (or a bare BucketBatchSampler with arbitrary maps); epochs, abandoned epochs (k batches, then the iterator is dropped), rank restarts, epoch jumps and RNG perturbations are interleaved by the seed; len() is also asked mid-epoch. After every epoch: len() vs batches yielded, every batch in one bucket / in sampler order / of the bucket's size with short batches only at the tail, exactly-once delivery (or documented drops), the bucket map is a partition into length classes with documented sizes, lossless collation against an independent float64 reference pipeline (mvn, deltas, context windows, sos/eos), padding values, ids on rows; over the history: identical batches for identical (seed, epoch).",
         design="DESIGN.md section 4 (C14)",
         note="Trusted: SimFS/SimDist stubs; num_workers=0; rows are mapped to utterances by content when ids are suppressed; the per-rank sampler order is taken from the sampler's public API (its correctness is C13); reference transforms in props/corpus.py.",
         technique="deterministic simulation: simulated ranks and file system, seeded epoch/restart/jump histories, per-epoch invariants + reproducibility history oracle",
@@ -58,21 +58,21 @@ META = {
     ),
     "C18": dict(
         category="exploration",
-        text="First clause only. Accumulation histories: tensors sharing a feature dimension are cut recursively along tape-chosen axes and delivered to one MeanVarianceNormalization accumulator in tape-chosen order (optionally with an interim store), or stored as files and fed through compute-mvn-stats-for-torch-feat-data-dir under a permuted directory listing with --id2gid groups; mean and (biased / Bessel) std must equal the float64 pooled statistics for every partition and order, normalising the pooled data must give zero mean and unit variance, and without stored statistics the input's own are used. Deltas are judged only on the data-set transform path (inside C14).",
+        text="First clause only. Accumulation histories: tensors sharing a feature dimension are cut recursively along tape-chosen axes and delivered to one MeanVarianceNormalization accumulator in tape-chosen order (with store(delete_stats=False, bessel=b) as a repeatable operation of the history, each judged against the pooled statistics so far), or stored as files and fed through compute-mvn-stats-for-torch-feat-data-dir under a permuted directory listing with --id2gid groups; mean and (biased / Bessel) std must equal the float64 pooled statistics for every partition and order, normalising the pooled data must give zero mean and unit variance, and without stored statistics (or with only a mean or only a std given) the input's own are used. Deltas are judged only on the data-set transform path (inside C14).",
         design="DESIGN.md section 4 (C18)",
         note="NOT decided: feat_deltas for general (dim, time_dim, concatenate, pad_mode) and time_distributed_return: pure functions with no history, schedule or fault in them. Trusted: numpy float64 two-pass statistics; dtype-aware tolerances.",
         technique="deterministic simulation: tape-driven partition/order histories of one accumulator, and the directory command on a simulated FS with permuted listings, against pooled float64 statistics",
     ),
     "C17": dict(
         category="exploration",
-        text="The console commands are called in-process on a real scratch directory; torch.multiprocessing pools are replaced by SimPool, a single-threaded executable model of multiprocessing.Pool whose feed / assign / work / deliver events are picked by the seeded choice tape (completion order, chunk assignment, consumer lag, feeder run-ahead), with pickle round trips for everything crossing the process boundary and seed-permuted directory listings. Each pipeline (trn, ctm, TextGrid round trips; ali<->token; error rates; subset; length moments, mvn stats, info; chunk command) is run serially and under 2-3 pooled configurations: inverse-pair and printed-figure oracles are judged on the serial run (figures against a float64 / pure-Python DP recomputation), and every pooled run must reproduce the serial run's files, printed text and exit status.",
+        text="The console commands are called in-process on a real scratch directory; torch.multiprocessing pools are replaced by SimPool, a single-threaded executable model of multiprocessing.Pool whose feed / assign / work / deliver events are picked by the seeded choice tape (completion order, chunk assignment, consumer lag, feeder run-ahead), with pickle round trips for everything crossing the process boundary and seed-permuted directory listings. Each pipeline (trn, ctm, TextGrid round trips; ali<->token; error rates; subset; length moments, mvn stats, info; chunk command) first runs a warm-up round on the same paths with one utterance fewer (state remembered between invocations goes stale), then serially and under 2-3 pooled configurations: inverse-pair and printed-figure oracles are judged on the serial run (figures against a float64 / pure-Python DP recomputation), and every pooled run must reproduce the serial run's files, printed text and exit status.",
         design="DESIGN.md section 4 (C17), 3.4",
         note="Trusted: SimPool's model of multiprocessing.Pool (workers share the imported module; spawn start-up state, real pipes and OS-killed workers not modelled); SimDataLoader stub for DataLoader(num_workers>0) (torch's in-order contract assumed); oracles in props/pipelines.py. No I/O errors injected.",
         technique="deterministic simulation: tape-scheduled model of the worker pool, permuted listings, serial-vs-pooled differential + inverse-pair / recomputation oracles",
     ),
     "C10": dict(
         category="exploration",
-        text="Last sentence only (chunking a data directory). chunk-torch-spect-data-dir runs inside the C17 simulation (SimPool schedules, permuted listings, real files). Independently of the slicer, each chunk's window is read back from its name: features and alignments must equal source[start:end] (pad rules for constant / replicate), tokens must be exactly the contained (or overlapping) known segments in order with boundaries re-expressed from the slice start, feat/ali/ref file sets coincide, valid-only windows lie inside the sequence, lobe-size-0 window sets equal the documented ones, the output passes strict validation, and pooled runs equal the serial run.",
+        text="Last sentence only (chunking a data directory). chunk-torch-spect-data-dir runs inside the C17 simulation (SimPool schedules, permuted listings, real files). Independently of the slicer, each chunk's window is read back from its name: features and alignments must equal source[start:end] (pad rules for constant / replicate), tokens must be exactly the contained (or overlapping) known segments in order with boundaries re-expressed from the slice start, feat/ali/ref file sets coincide, valid-only windows lie inside the sequence, lobe-size-0 window sets (multisets and order under index-based names) equal the documented ones, one utterance chunked alone gives the same chunks as together with the others, the output passes strict validation, and pooled runs equal the serial run.",
         design="DESIGN.md section 4 (C10)",
         note="NOT decided: which windows a policy prescribes for lobe sizes > 0 / window types / the padded regime (pure function). Known finding C10-D15 (boundary sign; a unit test pins it) is reported as KNOWN-FINDING. Trusted: SimPool, the name-based oracle in props/pipelines.py::Chunk.",
         technique="deterministic simulation: the chunk command under tape-scheduled SimPool on a scratch directory, window-from-name oracle + serial-vs-pooled differential",
